@@ -157,8 +157,10 @@ static void sem_tasks()
         // permits): a rescuer adds a permit only when every unfinished task sits in acquire() AND the
         // semaphore holds no permit - so a lost wake-up (permit present, acquirer blocked) stays stuck
         rt::spawn([&] {
-            int guard = 0;
-            while (L.finished < T && ++guard < 400)
+            // no iteration limit: a schedule in which the rescuer runs long before the takers start must
+            // not make it give up (thorough-tier false alarm sem_2x2/stuck); if nothing can move any more
+            // the stuck detector ends the execution
+            while (L.finished < T)
             {
                 if (L.in_acquire > 0 && L.in_acquire == T - L.finished && (long) sem.sem_.value_ < 1)
                 {
